@@ -157,6 +157,10 @@ type SimWriter struct {
 	// FailRate is the chance (out of 16) that a Write fails.
 	FailRate int
 
+	// Errs, if set, are the errors a failing Write draws from (default:
+	// ErrInjected).
+	Errs []error
+
 	// ShortNil (out of 16) makes the writer break the io.Writer contract by
 	// reporting a short count with a nil error now and then.
 	ShortNil int
@@ -175,6 +179,9 @@ func (w *SimWriter) Write(p []byte) (n int, err error) {
 	n = len(p)
 	if w.FailRate > 0 && w.Tape.Bool(w.FailRate, 16) {
 		err = ErrInjected
+		if len(w.Errs) > 0 {
+			err = w.Errs[w.Tape.Choose(len(w.Errs))]
+		}
 		switch w.Tape.Choose(3) {
 		case 0:
 			n = 0
